@@ -122,9 +122,12 @@ def check(run):
 
     # ---------------- R20.3 stored raw pointers point into the object's own buffer
     npt = 0
+    local_types = set(f_.get("cls") for f_ in facts.functions.values() if f_.get("cls") and ")::" in (f_.get("qn") or ""))
     for q, r in sorted(facts.records.items()):
         if not lib_file(facts, r["file"]):
             continue
+        if "::" not in q or q in local_types:
+            continue      # a helper type declared inside a function: its objects live and die within one call of that function
         for fld in r["fields"]:
             if not fld.get("ptr"):
                 continue
